@@ -114,6 +114,16 @@ def run(ctx: common.Ctx):
     hist = [heapcorr.gen_history(rng, rng.randint(4, 14)) for _ in range(nh)]
     want = common.model(heapcorr.model_lines(hist, False))
     got = heapcorr.run_impl_no_ort(hist)
+    hs = [heapcorr.gen_history_shortcuts(rng, rng.randint(5, 14)) for _ in range(nh)]
+    for h, w, g in zip(hs, common.model(heapcorr.model_lines(hs, False)), heapcorr.run_impl_no_ort(hs)):
+        if g == "skip":
+            ctx.count("shortcut-history-skipped-equal-branches")
+            continue
+        ctx.case(("hist-shortcut", tuple(h)), any(s.startswith("gw") for s in h), {"history": h, "flags": g} if len(ctx.samples) < 5 else None)
+        ctx.count("shortcut-history-steps", len(h))
+        if w != g:
+            ctx.violation("corearray-history-no-ort/shortcut-flags-differ", f"history {' '.join(h)}: implementation {g}, model {w}",
+                          {"history": h, "implementation": g, "model": w})
     for h, w, g in zip(hist, want, got):
         ctx.case(("hist", tuple(h)), True)
         if w != g:
